@@ -5,13 +5,26 @@ Extracted (every run, from /repo's working tree):
     FIELD_CAPACITIES, FIELD_LABELS, SINGLE_POOL_NAME, NEO4j_NONE) - by import, must be str;
   * DelegationFormat / DelegationType member names (must be exactly the three / two the model knows);
   * the field lists of Capacities() and Labels() with their defaults (all 0 resp. all None) and the
-    names of the label fields that carry a validator (only used by the driver's concrete details);
-  * AST checks of Delegations.to_json / from_json: the constants referenced are exactly the ones above,
-    from_json dispatches on `<FIELD_POOL_ID> in v.keys()` first and `<FIELD_POOL> in v.keys()` second,
-    to_json has one branch per DelegationFormat member.  Anything else is an ExtractionError.
+    names of the label fields that carry a validator.
+
+Checked (nothing of it goes into the Generated file; a failure is an ExtractionError):
+  * KEY VOCABULARY, by value: every string that Delegations.to_json / from_json (and the functions of the module
+    they call) can use as a dictionary key or compare a key/pool name with - a module-level or class-level string
+    constant reached through ANY name (``ABCPropertyGraphConstants.X``, a hoisted alias ``_KEY = ABCPropertyGraphConstants.X``,
+    an alias of the class) or a string literal in key position - is one of the six constants above.  Names are resolved
+    in the imported module's namespace, so renaming locals, hoisting constants, aliasing the constants class or extracting
+    a helper does not matter; a key outside the vocabulary does.
+  * BEHAVIOUR of the codec's dispatch, probed on the imported classes:
+      - to_json writes, for every DelegationFormat member and both types, exactly the keys the model writes
+        ({pool_id: "_" | name, capacities|labels: dict} resp. {pool: name});
+      - from_json looks at <FIELD_POOL_ID> first and <FIELD_POOL> second (an entry holding both is a definition), an entry
+        with neither raises DelegationException, <SINGLE_POOL_NAME> under <FIELD_POOL_ID> is a single-resource delegation,
+        and None / '' / <NEO4j_NONE> give None.
 """
 import ast
 import importlib
+import json
+import os
 
 from .common import *
 
@@ -19,33 +32,206 @@ REL = "fim/slivers/delegations.py"
 CONSTS = ["FIELD_POOL", "FIELD_POOL_ID", "FIELD_CAPACITIES", "FIELD_LABELS", "SINGLE_POOL_NAME", "NEO4j_NONE"]
 FORMATS = ["PoolDefinition", "PoolReference", "SinglePool"]
 TYPES = ["CAPACITY", "LABEL"]
+TO_JSON_CONSTS = ["FIELD_POOL", "FIELD_POOL_ID", "FIELD_CAPACITIES", "FIELD_LABELS", "SINGLE_POOL_NAME"]
+_NOVAL = object()
 
 
-def _const_refs(fn):
-    out = []
+# --------------------------------------------------------------------------
+# key vocabulary by value
+
+
+def _local_names(fn):
+    """names bound inside fn (arguments, assignment / loop / with / comprehension targets, local imports)"""
+    out = set()
+    a = fn.args
+    for x in a.posonlyargs + a.args + a.kwonlyargs + ([a.vararg] if a.vararg else []) + ([a.kwarg] if a.kwarg else []):
+        out.add(x.arg)
     for n in ast.walk(fn):
-        if isinstance(n, ast.Attribute) and isinstance(n.value, ast.Name) and n.value.id == "ABCPropertyGraphConstants":
-            out.append(n.attr)
+        if isinstance(n, ast.Name) and isinstance(n.ctx, (ast.Store, ast.Del)):
+            out.add(n.id)
+        elif isinstance(n, (ast.Import, ast.ImportFrom)):
+            for al in n.names:
+                out.add((al.asname or al.name).split(".")[0])
+        elif isinstance(n, ast.ExceptHandler) and n.name:
+            out.add(n.name)
     return out
 
 
-def _in_keys_const(test):
-    """`ABCPropertyGraphConstants.X in v.keys()` -> X"""
-    if (isinstance(test, ast.Compare) and len(test.ops) == 1 and isinstance(test.ops[0], ast.In)
-            and isinstance(test.left, ast.Attribute) and getattr(test.left.value, "id", "") == "ABCPropertyGraphConstants"
-            and isinstance(test.comparators[0], ast.Call) and getattr(test.comparators[0].func, "attr", "") == "keys"):
-        return test.left.attr
-    return None
+def _resolve(node, ns, local):
+    """runtime value of a Name / dotted Attribute expression in the module namespace ns, or _NOVAL"""
+    if isinstance(node, ast.Name):
+        if node.id in local:
+            return _NOVAL
+        if node.id in ns:
+            return ns[node.id]
+        import builtins
+        return getattr(builtins, node.id, _NOVAL)
+    if isinstance(node, ast.Attribute):
+        base = _resolve(node.value, ns, local)
+        if base is _NOVAL:
+            return _NOVAL
+        try:
+            return getattr(base, node.attr)
+        except Exception:
+            return _NOVAL
+    return _NOVAL
 
 
-def _format_branches(fn):
-    """names F of every `v.get_format() == DelegationFormat.F` test inside fn, in source order"""
+def _skip_subtrees(fn):
+    """ids of the nodes inside raise statements and f-strings (messages, not keys) and of the docstring"""
+    skip = set()
+    for n in ast.walk(fn):
+        if isinstance(n, (ast.Raise, ast.JoinedStr)):
+            for m in ast.walk(n):
+                skip.add(id(m))
+    body = fn.body
+    if body and isinstance(body[0], ast.Expr) and isinstance(body[0].value, ast.Constant) and isinstance(body[0].value.value, str):
+        skip.add(id(body[0].value))
+    return skip
+
+
+def _str_values(fn, ns):
+    """every str the function can use as a key / compare with: resolved names and attribute chains, plus string literals
+    in key position (subscript, operand of in / == / !=, first argument of .get/.pop/.setdefault, dict-literal key,
+    right-hand side of an assignment)"""
+    local = _local_names(fn)
+    skip = _skip_subtrees(fn)
+    inner = set()        # Attribute nodes that are the .value of another Attribute (only outermost chains are resolved)
+    for n in ast.walk(fn):
+        if isinstance(n, ast.Attribute) and isinstance(n.value, ast.Attribute):
+            inner.add(id(n.value))
     out = []
     for n in ast.walk(fn):
-        if isinstance(n, ast.Compare) and len(n.ops) == 1 and isinstance(n.ops[0], ast.Eq) \
-                and isinstance(n.comparators[0], ast.Attribute) and getattr(n.comparators[0].value, "id", "") == "DelegationFormat":
-            out.append(n.comparators[0].attr)
+        if id(n) in skip:
+            continue
+        if isinstance(n, (ast.Name, ast.Attribute)) and isinstance(getattr(n, "ctx", None), ast.Load) and id(n) not in inner:
+            v = _resolve(n, ns, local)
+            if isinstance(v, str):
+                out.append(v)
+        lits = []
+        if isinstance(n, ast.Subscript):
+            lits.append(n.slice)
+        elif isinstance(n, ast.Compare):
+            lits += [n.left] + list(n.comparators)
+        elif isinstance(n, ast.Call) and isinstance(n.func, ast.Attribute) and n.func.attr in ("get", "pop", "setdefault") and n.args:
+            lits.append(n.args[0])
+        elif isinstance(n, ast.Dict):
+            lits += [k for k in n.keys if k is not None]
+        elif isinstance(n, ast.Assign):
+            lits.append(n.value)
+        elif isinstance(n, ast.AnnAssign) and n.value is not None:
+            lits.append(n.value)
+        while lits:
+            l = lits.pop()
+            if isinstance(l, (ast.Tuple, ast.List, ast.Set)):
+                lits += list(l.elts)            # `x in ('a', 'b')`
+            elif isinstance(l, ast.Constant) and isinstance(l.value, str) and id(l) not in skip:
+                out.append(l.value)
     return out
+
+
+def _callees(fn, tree):
+    """functions of the module fn may call: module-level functions by name, methods of the module's classes by
+    attribute name (an over-approximation: the receiver's class is not known)"""
+    funcs = {n.name: n for n in tree.body if isinstance(n, (ast.FunctionDef, ast.AsyncFunctionDef))}
+    methods = {}
+    for c in tree.body:
+        if isinstance(c, ast.ClassDef):
+            for m in c.body:
+                if isinstance(m, (ast.FunctionDef, ast.AsyncFunctionDef)):
+                    methods.setdefault(m.name, []).append(m)
+    out = []
+    for n in ast.walk(fn):
+        if isinstance(n, ast.Call):
+            if isinstance(n.func, ast.Name) and n.func.id in funcs:
+                out.append(funcs[n.func.id])
+            elif isinstance(n.func, ast.Attribute) and n.func.attr in methods:
+                out += methods[n.func.attr]
+    return out
+
+
+def key_vocab(fn, tree, ns):
+    """string values used by fn and, transitively, by the module's own functions it calls"""
+    seen, todo, out = set(), [fn], []
+    while todo:
+        f = todo.pop()
+        if id(f) in seen:
+            continue
+        seen.add(id(f))
+        out += _str_values(f, ns)
+        todo += _callees(f, tree)
+    return sorted(set(out))
+
+
+# --------------------------------------------------------------------------
+# behavioural probes
+
+
+def _probe(dm, cl, C):
+    """dispatch behaviour of to_json / from_json on the imported classes; returns a dict for the report"""
+    F, T = dm.DelegationFormat, dm.DelegationType
+    rep = {}
+    for t in T:
+        det_key = C.FIELD_CAPACITIES if t == T.CAPACITY else C.FIELD_LABELS
+        oth_key = C.FIELD_LABELS if t == T.CAPACITY else C.FIELD_CAPACITIES
+
+        def det():
+            return cl.Capacities(core=3) if t == T.CAPACITY else cl.Labels(local_name="x3")
+        dd = det().to_dict()
+        # ---- to_json: one shape per format member
+        for f in F:
+            d = dm.Delegation(atype=t, delegation_id="probe", aformat=f, pool_id=None if f == F.SinglePool else "probe_pool")
+            if f != F.PoolReference:
+                d.set_details(det())
+            ds = dm.Delegations(atype=t)
+            ds.add_delegations(d)
+            try:
+                got = json.loads(ds.to_json())
+            except Exception as e:
+                raise ExtractionError("to_json probe (%s, %s) raised %s: %s" % (t.name, f.name, type(e).__name__, e))
+            want = {"probe": {C.FIELD_POOL: "probe_pool"} if f == F.PoolReference else
+                    {C.FIELD_POOL_ID: C.SINGLE_POOL_NAME if f == F.SinglePool else "probe_pool", det_key: dd}}
+            if got != want:
+                raise ExtractionError("to_json probe (%s, %s): wrote %s, the model writes %s" % (t.name, f.name, got, want))
+            if f != F.PoolReference and list(got["probe"].keys()) != [C.FIELD_POOL_ID, det_key]:
+                raise ExtractionError("to_json probe (%s, %s): key order %s" % (t.name, f.name, list(got["probe"].keys())))
+
+        # ---- from_json: dispatch order and sentinels
+        def dec(entry):
+            try:
+                r = dm.Delegations.from_json(json_str=json.dumps({"probe": entry}), atype=t)
+            except Exception as e:
+                return type(e).__name__
+            d = r.delegations.get("probe") if r is not None else None
+            if d is None:
+                return None
+            x = d.delegation_details
+            return (d.format.name, d.pool_id, None if x is None else (type(x).__name__, x.to_dict()), d.type.name)
+        tn = "Capacities" if t == T.CAPACITY else "Labels"
+        expect = [
+            ("pool_id before pool", {C.FIELD_POOL_ID: "p", C.FIELD_POOL: "q", det_key: dd}, ("PoolDefinition", "p", (tn, dd), t.name)),
+            ("pool before pool_id in the text", {C.FIELD_POOL: "q", C.FIELD_POOL_ID: "p", det_key: dd}, ("PoolDefinition", "p", (tn, dd), t.name)),
+            ("single sentinel", {C.FIELD_POOL_ID: C.SINGLE_POOL_NAME, det_key: dd}, ("SinglePool", None, (tn, dd), t.name)),
+            ("definition", {C.FIELD_POOL_ID: "p", det_key: dd}, ("PoolDefinition", "p", (tn, dd), t.name)),
+            ("reference", {C.FIELD_POOL: "q"}, ("PoolReference", "q", None, t.name)),
+            ("neither key", {det_key: dd}, "DelegationException"),
+            ("empty entry", {}, "DelegationException"),
+            ("details key missing", {C.FIELD_POOL_ID: "p"}, "KeyError"),
+            ("other type's details only", {C.FIELD_POOL_ID: "p", oth_key: {}}, "KeyError"),
+        ]
+        for what, entry, want in expect:
+            got = dec(entry)
+            if got != want:
+                raise ExtractionError("from_json probe (%s, %s): %s -> %s, the model gives %s" % (t.name, what, entry, got, want))
+        for text in (None, "", C.NEO4j_NONE):
+            try:
+                r = dm.Delegations.from_json(json_str=text, atype=t)
+            except Exception as e:
+                r = type(e).__name__
+            if r is not None:
+                raise ExtractionError("from_json probe (%s): %r -> %r, expected None" % (t.name, text, r))
+        rep[t.name] = len(expect) + len(list(F)) + 3
+    return rep
 
 
 def extract():
@@ -53,33 +239,6 @@ def extract():
     cls = find_class(tree, "Delegations")
     to_json = find_func(cls, "to_json")
     from_json = find_func(cls, "from_json")
-    used_to = sorted(set(_const_refs(to_json)))
-    used_from = sorted(set(_const_refs(from_json)))
-    want_to = sorted(["FIELD_POOL_ID", "SINGLE_POOL_NAME", "FIELD_CAPACITIES", "FIELD_LABELS", "FIELD_POOL"])
-    want_from = sorted(want_to + ["NEO4j_NONE"])
-    if used_to != want_to:
-        raise ExtractionError("Delegations.to_json references constants %s, expected %s" % (used_to, want_to))
-    if used_from != want_from:
-        raise ExtractionError("Delegations.from_json references constants %s, expected %s" % (used_from, want_from))
-    # dispatch order of the decoder
-    loop = [s for s in strip_doc(from_json.body) if isinstance(s, ast.For)]
-    if len(loop) != 1:
-        raise ExtractionError("from_json: expected exactly one loop over the decoded dictionary")
-    ifs = [s for s in loop[0].body if isinstance(s, ast.If)]
-    if not ifs:
-        raise ExtractionError("from_json: no dispatch on the entry's keys")
-    first = _in_keys_const(ifs[0].test)
-    second = None
-    if len(ifs[0].orelse) == 1 and isinstance(ifs[0].orelse[0], ast.If):
-        second = _in_keys_const(ifs[0].orelse[0].test)
-        tail = ifs[0].orelse[0].orelse
-        if not (len(tail) == 1 and isinstance(tail[0], ast.Raise)):
-            raise ExtractionError("from_json: the final else of the key dispatch does not raise")
-    if [first, second] != ["FIELD_POOL_ID", "FIELD_POOL"]:
-        raise ExtractionError("from_json: key dispatch order is %s, expected FIELD_POOL_ID then FIELD_POOL" % [first, second])
-    fb = _format_branches(to_json)
-    if sorted(fb) != sorted(FORMATS):
-        raise ExtractionError("to_json: format branches %s, expected one per %s" % (fb, FORMATS))
 
     import fim.graph.abc_property_graph_constants as cm
     importlib.reload(cm)
@@ -90,11 +249,39 @@ def extract():
         if not isinstance(v, str):
             raise ExtractionError("constant %s is not a str" % k)
         out[k] = v
+    if len(set(out[k] for k in CONSTS[:4])) != 4:
+        raise ExtractionError("the four key constants are not distinct: %s" % {k: out[k] for k in CONSTS[:4]})
     import fim.slivers.delegations as dm
+    if os.path.realpath(getattr(dm, "__file__", "")) != os.path.realpath(os.path.join(REPO, REL)):
+        raise ExtractionError("fim.slivers.delegations was imported from %s, not from the tree under check" % getattr(dm, "__file__", None))
     if [m.name for m in dm.DelegationFormat] != FORMATS:
         raise ExtractionError("DelegationFormat members are %s" % [m.name for m in dm.DelegationFormat])
     if [m.name for m in dm.DelegationType] != TYPES:
         raise ExtractionError("DelegationType members are %s" % [m.name for m in dm.DelegationType])
+
+    # key vocabulary (by value, through any alias / helper)
+    ns = vars(dm)
+    inv = {}
+    for k in CONSTS:
+        inv.setdefault(out[k], []).append(k)
+    vt = key_vocab(to_json, tree, ns)
+    vf = key_vocab(from_json, tree, ns)
+    allowed_to = {out[k] for k in TO_JSON_CONSTS}
+    allowed_from = {out[k] for k in CONSTS}
+    if not set(vt) <= allowed_to:
+        raise ExtractionError("Delegations.to_json uses the strings %s outside the vocabulary %s" % (
+            sorted(set(vt) - allowed_to), sorted(allowed_to)))
+    if not set(vf) <= allowed_from:
+        raise ExtractionError("Delegations.from_json uses the strings %s outside the vocabulary %s" % (
+            sorted(set(vf) - allowed_from), sorted(allowed_from)))
+    if set(vt) != allowed_to or set(vf) != allowed_from:
+        # every constant of the vocabulary is needed by the behaviour probed below; one that is never mentioned means
+        # the vocabulary scan does not see how the function gets at its keys
+        raise ExtractionError("key vocabulary scan incomplete: to_json %s (want %s), from_json %s (want %s)" % (
+            vt, sorted(allowed_to), vf, sorted(allowed_from)))
+    out["vocab_to_json"] = sorted(inv[v][0] for v in vt)
+    out["vocab_from_json"] = sorted(inv[v][0] for v in vf)
+
     import fim.slivers.capacities_labels as cl
     cap = cl.Capacities()
     lab = cl.Labels()
@@ -105,6 +292,12 @@ def extract():
     out["capFields"] = list(cap.__dict__.keys())
     out["labFields"] = list(lab.__dict__.keys())
     out["labValidated"] = [f for f in lab.__dict__ if f in cl.Labels.VALIDATORS or f in cl.Labels.LAMBDA_VALIDATORS]
+    try:
+        out["probes"] = _probe(dm, cl, C)
+    except ExtractionError:
+        raise
+    except Exception as e:
+        raise ExtractionError("codec probe crashed: %s: %s" % (type(e).__name__, e))
     out["span"] = span_hash(src, cls)
     return out
 
